@@ -297,7 +297,7 @@ class Fam:
             parts = [self.gen_type(depth - 1, avail) for _ in range(n)]
             # a NewType member makes to_dict itself reject the value (C11 territory): not used inside unions
             # (same for an Any member: to_dict raises InvalidFieldValue for e.g. Union[date, Any] holding False)
-            parts = [p if p.src not in ("NTy", "Any", "TV") else LEAF_BY_SRC["int"] for p in parts]
+            parts = [p if p.src not in ("NTy", "Any", "TV", "TVB", "TVC") else LEAF_BY_SRC["int"] for p in parts]
             if r.random() < 0.3:
                 parts.insert(r.randrange(0, n + 1), T("None", _choice(["None"])))
             vs = [p for p in parts if p.val]
@@ -637,7 +637,9 @@ class Fam:
         r = self.r
         opts = ["pass_through", '{"serialize": ser_plain}', '{"serialize": lambda v: v}', "StratU()", '{"deserialize": ser_plain}']
         if key != "str":
-            opts += ['{"serialize": ser_str}', "StratA()", '{"serialize": ser_opt}', '{"serialize": ser_str}']
+            opts += ['{"serialize": ser_str}', "StratA()", '{"serialize": ser_str}']
+            if self.allow_container_strategy:
+                opts += ['{"serialize": ser_opt}']
         if key != "int":
             opts += ['{"serialize": ser_int}']
         # container-returning strategies (ser_map/ser_lst) are generated only for classes without field-level
